@@ -62,6 +62,10 @@ def check(ctx):
     from .c17 import discovered_state
     ctx.absorb(lambda sub: discovered_state(sub, package(sub.tree), "R10"), "R10", only=lambda o: o.outcome != "MISSING")
     _r11(ctx, pkg)
+    # the slots follow every edit: the species / element views are live, or reset on every public path that changes what they are
+    # computed from (shared with C14.R6) -- a stale view gives a species no slot, or a slot to a species that is gone
+    from .c14 import _r6 as live_views
+    ctx.absorb(lambda sub: live_views(sub, package(sub.tree)), "R12", only=lambda o: any(k in o.key for k in ("Network.species:", "Network.elements:")) and o.outcome != "MISSING")
 
 
 # ------------------------------------------------------------------ the alias rule (R6 anchor)
